@@ -24,12 +24,12 @@ pub fn csum_fold(mut acc: u32) -> u16 {
 pub fn csum(data: &[u8]) -> u16 {
     csum_fold(csum_add(0, data))
 }
-fn pseudo4(src: &[u8], dst: &[u8], proto: u8, len: usize) -> u32 {
+pub fn pseudo4(src: &[u8], dst: &[u8], proto: u8, len: usize) -> u32 {
     let mut a = csum_add(0, src);
     a = csum_add(a, dst);
     a + proto as u32 + len as u32
 }
-fn pseudo6(src: &[u8], dst: &[u8], proto: u8, len: usize) -> u32 {
+pub fn pseudo6(src: &[u8], dst: &[u8], proto: u8, len: usize) -> u32 {
     let mut a = csum_add(0, src);
     a = csum_add(a, dst);
     a + proto as u32 + (len as u32 >> 16) + (len as u32 & 0xffff)
